@@ -62,7 +62,6 @@ type c14Cert struct {
 }
 
 func (c *c14Cert) expiry() time.Time { return c.leaf.NotAfter.Truncate(time.Second).Add(time.Second) }
-func (c *c14Cert) short() bool       { return c.expiry().Sub(c.leaf.NotBefore) < 7*24*time.Hour }
 
 // newLeaf makes a leaf of the given flavor.
 func (wd *c14World) newLeaf(flavor, name string) *c14Cert {
@@ -286,7 +285,7 @@ func (t *c14Tables) encode(e *emit.Enc) []c14Parsed {
 	}
 	e.Len(len(t.certs))
 	for _, c := range t.certs {
-		e.Int(c.nameID).Big(c.leaf.SerialNumber.String()).Big(bigTime(c.expiry())).Bool(c.short()).Bool(c.url)
+		e.Int(c.nameID).Big(c.leaf.SerialNumber.String()).Big(bigTime(c.expiry())).Z(int64(c.expiry().Sub(c.leaf.NotBefore))).Bool(c.url).Bool(c.flavor != "noissuer")
 	}
 	return out
 }
@@ -415,10 +414,21 @@ var c14Stored = map[string]*c14Ans{
 	"future-inverted":    {Kind: "resp", Status: ocsp.Good, Serial: "right", This: "far", Next: "past", Signer: "ca"},
 	"fresh-overlong":     {Kind: "resp", Status: ocsp.Good, Serial: "right", This: "recent", Next: "beyond", Signer: "ca"},
 	"fresh-at-expiry":    {Kind: "resp", Status: ocsp.Good, Serial: "right", This: "recent", Next: "at-expiry", Signer: "ca"},
+	// a persisted staple that does not verify against the issuer (fixed finding C14-forged-persisted-staple)
+	"fresh-forged": {Kind: "resp", Status: ocsp.Good, Serial: "right", This: "recent", Next: "week", Signer: "other"},
 }
+
+// c14StoredKeys: the persisted states used by the generators.
+func c14StoredKeys() []string { return emit.SortedKeys(c14Stored) }
 
 func c14Class(in c14CallIn) string {
 	a := in.Ans
+	if in.Stored == "fresh-forged" && in.Flavor == "noissuer" {
+		return "forged-persisted-no-chain"
+	}
+	if in.Stored == "fresh-forged" && in.Flavor == "normal" && a.Kind == "drop" {
+		return "forged-persisted"
+	}
 	if in.Stored == "absent" && a.Kind == "resp" && a.Status == ocsp.Good && a.Signer == "ca" && in.Flavor == "normal" && !in.Disabled {
 		switch {
 		case a.Serial == "other" && a.This == "recent" && a.Next == "week":
@@ -1051,7 +1061,7 @@ func revokedAns(reason int) c14Ans {
 func (wd *c14World) randPlan(r *rand.Rand) c14Plan {
 	var p c14Plan
 	n := 1 + r.Intn(3)
-	storedKeys := emit.SortedKeys(c14Stored)
+	storedKeys := c14StoredKeys()
 	for i := 0; i < n; i++ {
 		fl := []string{"normal", "normal", "normal", "short", "tenday", "nourl", "expired"}[r.Intn(7)]
 		managed := r.Intn(2) == 0
@@ -1190,6 +1200,11 @@ func runC14(tier string, seed int64, outdir string, replay string) error {
 	} {
 		wd.runCall(c14CallIn{Flavor: "normal", Stored: "absent", Ans: a})
 	}
+	// a forged persisted staple (fixed finding): verified against the issuer, found wanting, deleted
+	wd.runCall(c14CallIn{Flavor: "normal", Stored: "fresh-forged", Ans: c14Ans{Kind: "drop"}})
+	// witness of C14_signature_refuted_chainless_forged_store (known finding, not fixed): the
+	// same for a certificate handed over without its issuer
+	wd.runCall(c14CallIn{Flavor: "noissuer", Stored: "fresh-forged", Ans: c14Ans{Kind: "drop"}})
 	// the repo's own TestStapleOCSP/ok shape: zero ThisUpdate and NextUpdate
 	wd.runCall(c14CallIn{Flavor: "normal", Stored: "absent", Ans: c14Ans{Kind: "resp", Status: ocsp.Good, Serial: "right", This: "zero", Next: "zero", Signer: "ca"}})
 	// histories aimed at each clause
@@ -1244,7 +1259,7 @@ func runC14(tier string, seed int64, outdir string, replay string) error {
 		}
 	}
 	// every persisted state against a few answers and flavors
-	for _, sk := range emit.SortedKeys(c14Stored) {
+	for _, sk := range c14StoredKeys() {
 		for _, a := range []c14Ans{goodAns(), {Kind: "drop"}, {Kind: "refused"}, revokedAns(0), {Kind: "garbage", HTTP: 500}} {
 			for _, fl := range []string{"normal", "short", "nourl"} {
 				if fl != "normal" && a.Kind == "resp" && a.Status == ocsp.Revoked {
@@ -1259,11 +1274,14 @@ func runC14(tier string, seed int64, outdir string, replay string) error {
 	w.Meta.Universe = fmt.Sprintf("enumerated completely: %d single calls = response shapes {status} x {serial} x {signer} x {thisUpdate} x {nextUpdate} on a fresh certificate, and {persisted state} x {5 answers} x {3 flavors}; the rest is random", count)
 	// ---- random calls over the whole product ----
 	flavors := []string{"normal", "normal", "normal", "short", "nourl", "short-nourl", "noissuer", "expired", "tenday"}
-	storedKeys := emit.SortedKeys(c14Stored)
+	storedKeys := c14StoredKeys()
 	for i := 0; i < nCalls; i++ {
 		in := c14CallIn{Flavor: flavors[r.Intn(len(flavors))], Stored: "absent", Ans: wd.randAns(r), NilPEM: r.Intn(2) == 0, Disabled: r.Intn(25) == 0}
 		if r.Intn(2) == 0 {
 			in.Stored = storedKeys[r.Intn(len(storedKeys))]
+		}
+		if in.Flavor == "noissuer" && in.Stored == "fresh-forged" {
+			in.Stored = "fresh" // the chain-less forged case is the known finding of the corpus
 		}
 		if r.Intn(3) == 0 {
 			p := wd.randAns(r)
